@@ -303,6 +303,11 @@ def classify(case):
         labels.append('container_signature')
     if len(case['ifaces']) >= 2:
         labels.append('>=2 interfaces')
+    for spec in case['ifaces']:
+        for kind in ('methods', 'signals', 'props'):
+            low = [m['name'].lower() for m in spec[kind]]
+            if len(set(low)) != len(low):
+                labels.append('names_differing_only_in_case')
     if case['preregister']:
         labels.append('known_' + ('replace' if case['replace'] else 'reuse'))
     if case['children']:
@@ -310,7 +315,10 @@ def classify(case):
     return cont or len(case['ifaces']) >= 2, labels
 
 
-_names = st.sampled_from(['Alpha', 'Beta', 'Gamma', 'Delta', 'Eps', 'Zeta', 'Eta', 'Theta'])
+# member names are case-sensitive and compared whole: the pool holds names that differ only in letter case, in a trailing
+# underscore or digit, or by being a prefix of another
+_names = st.sampled_from(['Alpha', 'Beta', 'Gamma', 'Delta', 'Eps', 'Zeta', 'Eta', 'Theta',
+                          'alpha', 'ALPHA', 'Alpha_', 'beta', 'Eps2', 'Et', '_Eta'])
 
 
 @st.composite
